@@ -91,9 +91,16 @@ func installFineHooks(sc *Sched, on map[string]bool, count func(string)) {
 		if t == nil || t.sched != sc {
 			return
 		}
-		for !tryLock() {
+		for spins := 0; !tryLock(); spins++ {
 			if t.Gen != nil && t.Gen.dead.Load() {
-				select {} // a goroutine of a killed process must neither spin nor block on a mutex
+				// a goroutine of a killed process must neither spin for ever nor block on a mutex
+				// (synctest.Wait cannot see through one); the zombies of a process all run at once,
+				// so the holder is usually another zombie about to release
+				if spins < 200 {
+					runtime.Gosched()
+					continue
+				}
+				select {}
 			}
 			sc.yieldTask(t, "mu.lockwait", true)
 		}
